@@ -448,6 +448,10 @@ var trieASCII = []string{"a", "b", "c"}
 // trie uses for invalid bytes), plus NUL and DEL
 var trieBoundary = []string{"a", "\x00", "\x7f", "\u0080", "\u07ff", "\u0800", "\ufffd", "\uffff", "\U00010000", "\U0010fffe", "\U0010ffff", "\xff"}
 
+// stray bytes next to the valid runes a wrong encoding of "invalid byte b" could collide with: rune(b) itself (U+0080, U+00BF,
+// U+00FF), base-b and base+int8(b) just below U+10FFFF (U+10FF01, U+10FF41, U+10FF80, U+10FFBF, U+10FFFF)
+var trieCollide = []string{"a", "\x80", "\xbf", "\xff", "\x81", "\u0080", "\u00bf", "\u00ff", "\U0010ff01", "\U0010ff41", "\U0010ff80", "\U0010ffbf", "\U0010ffff", "\U0010ff7f"}
+
 // bytes from which truncated / overlong / stray-continuation sequences arise (rune-aligned reading)
 var trieRaw = []string{"a", "\xe4", "\xb8", "\xad", "\x80", "\xc3", "\xa9", "\xf0", "\x9f", "\xff", "\xef\xbf\xbd", "中", "é"}
 
